@@ -102,9 +102,132 @@ Proof.
   all: try solve [ simpl in *; intuition (try discriminate; try congruence; auto) ].
   all: try solve [ destruct uns; destruct unsf; simpl in *; intuition (try discriminate; try congruence; auto) ].
   all: try solve [ repeat match goal with b : bool |- _ => destruct b end;
-                   repeat match goal with
-                          | q : list N |- _ => destruct q
-                          | r : option N |- _ => destruct r
-                          end;
+                   try match goal with q : list N |- _ => destruct q end;
+                   try match goal with r : option N |- _ => destruct r end;
                    simpl in *; intuition (try discriminate; try congruence) ].
+Qed.
+
+(* the invariant holds along every trace of the model *)
+Lemma inv_run_from : forall ts m s s',
+  Inv m s -> run s ts = Some s' -> Inv (mrun m (proj ts)) s'.
+Proof.
+  induction ts as [|l ts IH]; intros m s s' HI Hr; simpl in *.
+  - inversion Hr; subst; exact HI.
+  - destruct (step s l) as [s1|] eqn:Hs; [|discriminate].
+    pose proof (inv_step _ _ _ _ HI Hs) as HI1.
+    destruct l as [o|t]; simpl in *; eapply IH; eauto.
+Qed.
+
+Lemma inv_reach : forall ts s, run init ts = Some s -> Inv (mrun mon0 (proj ts)) s.
+Proof. intros ts s; apply inv_run_from, inv_init. Qed.
+
+(* every behaviour of the model passes the oracle *)
+Lemma model_traces_pass_oracle : forall ts s,
+  run init ts = Some s -> check_C32 (proj ts) = true.
+Proof. intros ts s Hr; unfold check_C32; apply (inv_reach ts s Hr). Qed.
+
+(* ---------- acceptor soundness ---------- *)
+Lemma in_tau_succ : forall s s', In s' (tau_succ s) -> exists t, step s (Tau t) = Some s'.
+Proof.
+  intros s s' Hin; unfold tau_succ in Hin. apply in_flat_map in Hin as (t & _ & Hin).
+  destruct (step s (Tau t)) as [x|] eqn:E; simpl in Hin; [|contradiction].
+  destruct Hin as [->|[]]; eauto.
+Qed.
+
+Lemma closure_sound : forall n s s',
+  In s' (closure n s) -> exists ts, run s ts = Some s' /\ proj ts = [].
+Proof.
+  induction n as [|n IH]; intros s s' Hin; simpl in Hin.
+  - destruct Hin as [->|[]]; exists []; auto.
+  - destruct Hin as [->|Hin]; [exists []; auto|].
+    apply in_flat_map in Hin as (s1 & H1 & H2).
+    apply in_tau_succ in H1 as (t & Ht).
+    apply IH in H2 as (ts & Hr & Hp).
+    exists (Tau t :: ts); simpl; rewrite Ht; auto.
+Qed.
+
+Lemma in_dedup : forall l x, In x (dedup l) -> In x l.
+Proof.
+  induction l as [|y l IH]; intros x Hin; simpl in *; [auto|].
+  destruct (existsb (st_eqb y) l); [right; auto|].
+  destruct Hin as [->|Hin]; [left; auto|right; auto].
+Qed.
+
+Lemma after_obs_sound : forall cfgs o s2,
+  In s2 (after_obs cfgs o) ->
+  exists s ts, In s cfgs /\ run s ts = Some s2 /\ proj ts = [o].
+Proof.
+  intros cfgs o s2 Hin; unfold after_obs in Hin. apply in_dedup in Hin.
+  apply in_flat_map in Hin as (s & Hs & Hin).
+  apply in_flat_map in Hin as (s1 & H1 & Hin).
+  destruct (step s1 (Obs o)) as [x|] eqn:E; simpl in Hin; [|contradiction].
+  destruct Hin as [->|[]].
+  apply closure_sound in H1 as (ts & Hr & Hp).
+  exists s, (ts ++ [Obs o]); split; [assumption|]; split.
+  - rewrite run_app, Hr; simpl; rewrite E; reflexivity.
+  - rewrite proj_app, Hp; reflexivity.
+Qed.
+
+Lemma accept_from_sound : forall os cfgs,
+  accept_from cfgs os = true ->
+  exists s ts s', In s cfgs /\ run s ts = Some s' /\ proj ts = os.
+Proof.
+  induction os as [|o os IH]; intros cfgs Ha; simpl in Ha.
+  - destruct cfgs as [|s r]; [discriminate|]. exists s, [], s; simpl; auto.
+  - apply IH in Ha as (s2 & ts2 & s' & Hin & Hr & Hp).
+    apply after_obs_sound in Hin as (s & ts1 & Hin & Hr1 & Hp1).
+    exists s, (ts1 ++ ts2), s'; split; [assumption|]; split.
+    + rewrite run_app, Hr1; assumption.
+    + rewrite proj_app, Hp1, Hp; reflexivity.
+Qed.
+
+(* an accepted observation sequence is the observable projection of a run of the model *)
+Lemma accepts_sound : forall os,
+  accepts os = true -> exists ts s, run init ts = Some s /\ proj ts = os.
+Proof.
+  intros os Ha; apply accept_from_sound in Ha as (s & ts & s' & Hin & Hr & Hp).
+  destruct Hin as [<-|[]]; eauto.
+Qed.
+
+(* the acceptor admits only traces that satisfy the oracle *)
+Lemma accepted_pass_oracle : forall os, accepts os = true -> check_C32 os = true.
+Proof.
+  intros os Ha; apply accepts_sound in Ha as (ts & s & Hr & <-).
+  eapply model_traces_pass_oracle; eauto.
+Qed.
+
+(* ---------- progress: a loop that has not returned is blocked only when it is
+   at its select with nothing pending ---------- *)
+Definition loop_label (l : label) : bool :=
+  match l with
+  | Obs (EInput _) | Obs (ERedraw _) | Obs (EReturn _) | Obs OQuiesce => false
+  | _ => true
+  end.
+
+Lemma loop_progress : forall s,
+  is_returned (pcs s) = false -> quiescent s = false ->
+  exists l s', loop_label l = true /\ step s l = Some s'.
+Proof.
+  intros [q t f r p] Hnr Hnq; destruct p; simpl in *; try discriminate.
+  - exists (Tau TExtract); eexists; split; reflexivity.
+  - exists (Obs (CRedrawStart f0)); eexists; split; [reflexivity|]; simpl.
+    rewrite Bool.eqb_reflx; reflexivity.
+  - exists (Obs CRedrawEnd); eexists; split; reflexivity.
+  - destruct q as [|e q].
+    + destruct t.
+      * exists (Tau TSelToken); eexists; split; reflexivity.
+      * destruct r as [x|]; [|discriminate].
+        exists (Tau TSelReturn); eexists; split; reflexivity.
+    + exists (Obs (CHandleStart e)); eexists; split; [reflexivity|]; simpl.
+      rewrite N.eqb_refl; reflexivity.
+  - exists (Obs CHandleEnd); eexists; split; reflexivity.
+  - exists (Tau TChkRet); destruct r; eexists; split; reflexivity.
+  - destruct q as [|e q].
+    + exists (Tau TDrainNo); eexists; split; reflexivity.
+    + exists (Obs (CHandleStart e)); eexists; split; [reflexivity|]; simpl.
+      rewrite N.eqb_refl; reflexivity.
+  - exists (Obs (CFinalStart false)); eexists; split; reflexivity.
+  - exists (Obs CFinalEnd); eexists; split; reflexivity.
+  - exists (Obs (CReturned r0)); eexists; split; [reflexivity|]; simpl.
+    rewrite N.eqb_refl; reflexivity.
 Qed.
